@@ -13,10 +13,12 @@
     [option value -> frame * upd] of the value currently stored at the key, and
     [on_key] applies its verdict to the database.
 
-    Rust operations that panic in the checked (debug) profile the harness builds
-    - unchecked [+] in hincrby, unary [-] on isize::MIN / i64::MIN in lrem and
-    srandmember, Vec::with_capacity overflow - answer the distinguished error
-    frame [PANIC] and leave the database alone (the real server process dies). *)
+    The model follows the tree after the repairs c5f1b6a (HINCRBY checked add),
+    61742d6 (HSET count on a fresh key), 2b792ef (LRANGE/LTRIM stop before the head),
+    6f35e51 (LREM isize::MIN), eab489c (SINTER/SDIFF type checks), 84546fc
+    (SRANDMEMBER negative counts).  [PANIC] is the distinguished outcome a panicking
+    Rust operation would have; after the repairs no command of this family reaches
+    one (Props/C03.v c03_no_panic). *)
 From Ferrous Require Import Base.Bytes Model.Resp Model.Types Model.Strings.
 Open Scope Z_scope.
 
@@ -106,10 +108,12 @@ Definition e_llen (cur : option value) : frame * upd :=
 
 (** lrange / ltrim normalisation (engine.rs):
       let start = if start < 0 { (len + start).max(0) } else { start } as usize;
-      let stop  = if stop  < 0 { (len + stop ).max(0) } else { stop  } as usize;
-    both branches are non-negative isize values, so the cast is the identity.
-    Then the loop keeps the items with start <= i <= stop. *)
+      let stop  = if stop  < 0 { len + stop } else { stop };
+      if stop >= 0 { let stop = stop as usize; ...loop... }
+    start is a non-negative isize, so its cast is the identity; stop is cast only when
+    non-negative.  The loop keeps the items with start <= i <= stop. *)
 Definition norm_clamp (n i : Z) : Z := if i <? 0 then Z.max (n + i) 0 else i.
+Definition norm_stop (n i : Z) : Z := if i <? 0 then n + i else i.
 Fixpoint slice_loop (i s e : Z) (l : list bytes) : list bytes :=
   match l with
   | [] => []
@@ -117,7 +121,8 @@ Fixpoint slice_loop (i s e : Z) (l : list bytes) : list bytes :=
               else slice_loop (i + 1) s e r
   end.
 Definition list_slice (l : list bytes) (start stop : Z) : list bytes :=
-  let n := len l in slice_loop 0 (norm_clamp n start) (norm_clamp n stop) l.
+  let n := len l in
+  if norm_stop n stop <? 0 then [] else slice_loop 0 (norm_clamp n start) (norm_stop n stop) l.
 
 Definition e_lrange (start stop : Z) (cur : option value) : frame * upd :=
   match cur with
@@ -176,20 +181,18 @@ Fixpoint lrem_fwd (x : bytes) (todo : Z) (l : list bytes) : list bytes * Z :=
       then match lrem_fwd x (todo - 1) r with (r', k) => (r', k + 1) end
       else match lrem_fwd x todo r with (r', k) => (y :: r', k) end
   end.
-(** None = the negation of isize::MIN overflowed *)
-Definition list_rem (count : Z) (x : bytes) (l : list bytes) : option (list bytes * Z) :=
+(** count < 0: the budget is count.unsigned_abs() (2^63 for isize::MIN) *)
+Definition list_rem (count : Z) (x : bytes) (l : list bytes) : list bytes * Z :=
   if count =? 0 then
-    Some (filter (fun y => negb (beq y x)) l, len (filter (fun y => beq y x) l))
-  else if 0 <? count then Some (lrem_fwd x count l)
-  else if count =? isize_min then None
-  else match lrem_fwd x (- count) (rev l) with (r, k) => Some (rev r, k) end.
+    (filter (fun y => negb (beq y x)) l, len (filter (fun y => beq y x) l))
+  else if 0 <? count then lrem_fwd x count l
+  else match lrem_fwd x (- count) (rev l) with (r, k) => (rev r, k) end.
 
 Definition e_lrem (count : Z) (x : bytes) (cur : option value) : frame * upd :=
   match cur with
   | Some (VList l) =>
       match list_rem count x l with
-      | None => (PANIC, Keep)
-      | Some (l', k) => (r_int k, match l' with [] => Del | _ => Put (VList l') end)
+      | (l', k) => (r_int k, match l' with [] => Del | _ => Put (VList l') end)
       end
   | Some _ => (r_wrongtype, Keep)
   | None => (r_int 0, Keep)
@@ -257,18 +260,17 @@ Fixpoint sunion_loop (d : db) (keys : list bytes) (acc : list bytes) : sres :=
               | None => sunion_loop d r acc
               end
   end.
-(** sinter: a missing key anywhere returns the empty result AT ONCE (later keys
-    are not looked at, so their type is not checked) *)
+(** sinter: a missing key empties the intersection; the remaining keys are still type-checked *)
 Fixpoint sinter_loop (d : db) (keys : list bytes) (acc : list bytes) : sres :=
   match keys with
   | [] => SOk acc
   | k :: r => match get_val d k with
               | Some (VSet s) => sinter_loop d r (filter (fun m => bmem m s) acc)
               | Some _ => SWrong
-              | None => SOk []
+              | None => sinter_loop d r []
               end
   end.
-(** sdiff: a missing FIRST key returns empty at once; later missing keys are skipped *)
+(** sdiff: a missing key is the empty set (first or later); every key is type-checked *)
 Fixpoint sdiff_loop (d : db) (keys : list bytes) (acc : list bytes) : sres :=
   match keys with
   | [] => SOk acc
@@ -285,7 +287,7 @@ Definition eng_sinter (d : db) (keys : list bytes) : sres :=
   | k :: r => match get_val d k with
               | Some (VSet s) => sinter_loop d r s
               | Some _ => SWrong
-              | None => SOk []
+              | None => sinter_loop d r []
               end
   end.
 Definition eng_sdiff (d : db) (keys : list bytes) : sres :=
@@ -294,7 +296,7 @@ Definition eng_sdiff (d : db) (keys : list bytes) : sres :=
   | k :: r => match get_val d k with
               | Some (VSet s) => sdiff_loop d r s
               | Some _ => SWrong
-              | None => SOk []
+              | None => sdiff_loop d r []
               end
   end.
 Definition sres_reply (r : sres) : frame :=
@@ -319,9 +321,9 @@ Definition pick_repeat_ok (s : list bytes) (n : Z) (xs : list bytes) : bool :=
   (len xs =? n) && all_in xs s.
 
 (** srandmember(count): count = None is the handler's call with 1 and a bulk reply.
-    -count overflows for i64::MIN; Vec::with_capacity(n) of 24-byte elements
-    panics with "capacity overflow" when 24 n > isize::MAX (below that bound a huge
-    n makes the allocator abort or the loop run n times: not modelled, see design note). *)
+    count < 0: checked_neg refuses i64::MIN ("value is out of range"), otherwise -count
+    independent draws (the loop runs -count times whatever the set's size: the work is
+    not bounded by input + state, see known_findings.json srandmember-neg-work). *)
 Definition e_srandmember (count : option Z) (oracle : option frame) (cur : option value) : frame * upd :=
   match cur with
   | Some (VSet s) =>
@@ -343,8 +345,7 @@ Definition e_srandmember (count : option Z) (oracle : option frame) (cur : optio
                            then (r_bulks (bsort xs), Keep) else (BADORACLE, Keep)
               | None => (BADORACLE, Keep)
               end
-            else if c =? i64_min then (PANIC, Keep)
-            else if isize_max <? 24 * (- c) then (PANIC, Keep)
+            else if c =? i64_min then (r_err, Keep)
             else
               match oracle_bulks oracle with
               | Some xs => if pick_repeat_ok s (- c) xs
@@ -388,7 +389,7 @@ Fixpoint hset_loop (h : list (bytes * bytes)) (ps : list (bytes * bytes)) (added
   | [] => (h, added)
   | (f, v) :: r => hset_loop (aset f v h) r (if amem f h then added else added + 1)
   end.
-(** on a fresh key the engine answers field_values.len(), not the number of distinct fields *)
+(** on a fresh key the engine answers hash.len() after the inserts *)
 Definition e_hset (ok_reply : bool) (ps : list (bytes * bytes)) (cur : option value) : frame * upd :=
   match cur with
   | Some (VHash h) =>
@@ -398,7 +399,7 @@ Definition e_hset (ok_reply : bool) (ps : list (bytes * bytes)) (cur : option va
   | Some _ => (r_wrongtype, Keep)
   | None =>
       match hset_loop [] ps 0 with
-      | (h', _) => (if ok_reply then r_ok else r_int (len ps), Put (VHash h'))
+      | (h', _) => (if ok_reply then r_ok else r_int (len h'), Put (VHash h'))
       end
   end.
 
@@ -473,7 +474,7 @@ Definition e_hvals (cur : option value) : frame * upd :=
   end.
 
 (** hincrby: the stored text is parsed as i64 (lossy UTF-8 cannot produce digits);
-    [current + increment] is an unchecked addition *)
+    [current.checked_add(increment)] refuses an overflow *)
 Definition e_hincrby (f : bytes) (inc : Z) (cur : option value) : frame * upd :=
   match cur with
   | Some (VHash h) =>
@@ -482,7 +483,7 @@ Definition e_hincrby (f : bytes) (inc : Z) (cur : option value) : frame * upd :=
           match parse_i64 b with
           | Some c => if in_i64 (c + inc)
                       then (r_int (c + inc), Put (VHash (aset f (print_int (c + inc)) h)))
-                      else (PANIC, Keep)
+                      else (r_err, Keep)                (* would overflow *)
           | None => (r_err, Keep)                (* NotInteger *)
           end
       | None => (r_int inc, Put (VHash (aset f (print_int inc) h)))
@@ -701,3 +702,35 @@ Definition exec_lists (now : Z) (d : db) (name : bytes) (parts : list frame) (or
   else if beq name (bs "HVALS") then Some (h_key1 e_hvals d parts)
   else if beq name (bs "HINCRBY") then Some (h_hincrby d parts)
   else None.
+
+(** ---- WATCH marks (C08): the keys on which the engine calls mark_modified ----
+    lpush/rpush, lset, hset, hincrby: on every success.  lpop/rpop: if an element came out.
+    ltrim, hdel: whenever the key holds a list / hash (even if nothing changed); nothing for a
+    missing key.  lrem: if removed > 0.  sadd: if added > 0 (always for a new set).
+    srem: if the set is empty afterwards, else if removed > 0.  spop: if the result is not empty.
+    No read marks; a refused command marks nothing. *)
+Definition marks_lists (d d' : db) (name : bytes) (parts : list frame) (reply : frame) : list bytes :=
+  let k1 := match nth_arg parts 1 with Some k => [k] | None => [] end in
+  let held := match nth_arg parts 1 with Some k => get_val d k | None => None end in
+  let gone := match nth_arg parts 1 with Some k => negb (amem k (d_data d')) | None => false end in
+  if beq name (bs "LPUSH") || beq name (bs "RPUSH") || beq name (bs "HINCRBY") then
+    (match reply with FInt _ => k1 | _ => [] end)
+  else if beq name (bs "LPOP") || beq name (bs "RPOP") then
+    (match reply with FBulk _ => k1 | _ => [] end)
+  else if beq name (bs "LSET") then (match reply with FSimple _ => k1 | _ => [] end)
+  else if beq name (bs "LTRIM") then
+    (match reply, held with FSimple _, Some (VList _) => k1 | _, _ => [] end)
+  else if beq name (bs "LREM") || beq name (bs "SADD") then
+    (match reply with FInt n => if 0 <? n then k1 else [] | _ => [] end)
+  else if beq name (bs "SREM") then
+    (match reply, held with
+     | FInt n, Some (VSet _) => if gone || (0 <? n) then k1 else []
+     | _, _ => []
+     end)
+  else if beq name (bs "SPOP") then
+    (match reply with FBulk _ => k1 | FArray (_ :: _) => k1 | _ => [] end)
+  else if beq name (bs "HSET") then (match reply with FInt _ => k1 | _ => [] end)
+  else if beq name (bs "HMSET") then (match reply with FSimple _ => k1 | _ => [] end)
+  else if beq name (bs "HDEL") then
+    (match reply, held with FInt _, Some (VHash _) => k1 | _, _ => [] end)
+  else [].
